@@ -1,8 +1,12 @@
 //! C18 — distributions are a pure function of current parameters and the RNG seed (DESIGN §3 C18).
 //!
 //! Events: every constructor / setter / `update` call (value or panic) in a random mutation history,
-//! and after every step the observable behaviour (pdf/pmf at 16 probe points, mean, var, a seeded
-//! stream of draws) of the mutated object next to a freshly constructed twin.
+//! and after every step the observable behaviour of the mutated object next to a freshly constructed
+//! twin, through EVERY method the distribution traits and inherent impls offer: `Continuous::pdf` /
+//! `Discrete::pmf` at 16 probe points, `Continuous::ln_pdf` (a default body = pdf().ln() that a law may
+//! override: Normal does) and `Normal::cdf` at those points and 10 far-tail points, `Mean::mean`,
+//! `Variance::var`, a seeded stream of `Distribution::sample` draws, and the bulk forms
+//! `Distribution1D::sample_n` / `sample_matrix` from the same seed.
 //! Oracle: the harness keeps its own model of the parameters that should be current (last accepted
 //! values) and a validity table taken from the constructors' documented domains; twin comparison is
 //! bitwise (NaN = NaN). A rejected call is compared object-before vs object-after.
@@ -258,6 +262,45 @@ impl Obj {
             Obj::Uniform(d) => d.pdf(x),
         }
     }
+    /// `Continuous::ln_pdf` (the discrete laws have no log-mass method)
+    fn ln_density(&self, x: f64) -> Option<f64> {
+        Some(match self {
+            Obj::Beta(d) => d.ln_pdf(x),
+            Obj::ChiSquared(d) => d.ln_pdf(x),
+            Obj::Exponential(d) => d.ln_pdf(x),
+            Obj::Gamma(d) => d.ln_pdf(x),
+            Obj::Gumbel(d) => d.ln_pdf(x),
+            Obj::Normal(d) => d.ln_pdf(x),
+            Obj::Pareto(d) => d.ln_pdf(x),
+            Obj::T(d) => d.ln_pdf(x),
+            Obj::Uniform(d) => d.ln_pdf(x),
+            Obj::Bernoulli(_) | Obj::Binomial(_) | Obj::DiscreteUniform(_) | Obj::Poisson(_) => return None,
+        })
+    }
+    /// inherent `cdf` (only Normal has one)
+    fn cdf(&self, x: f64) -> Option<f64> {
+        match self {
+            Obj::Normal(d) => Some(d.cdf(x)),
+            _ => None,
+        }
+    }
+    fn debug_repr(&self) -> String {
+        match self {
+            Obj::Bernoulli(d) => format!("{:?}", d),
+            Obj::Beta(d) => format!("{:?}", d),
+            Obj::Binomial(d) => format!("{:?}", d),
+            Obj::ChiSquared(d) => format!("{:?}", d),
+            Obj::DiscreteUniform(d) => format!("{:?}", d),
+            Obj::Exponential(d) => format!("{:?}", d),
+            Obj::Gamma(d) => format!("{:?}", d),
+            Obj::Gumbel(d) => format!("{:?}", d),
+            Obj::Normal(d) => format!("{:?}", d),
+            Obj::Pareto(d) => format!("{:?}", d),
+            Obj::Poisson(d) => format!("{:?}", d),
+            Obj::T(d) => format!("{:?}", d),
+            Obj::Uniform(d) => format!("{:?}", d),
+        }
+    }
     fn mean(&self) -> f64 {
         match self {
             Obj::Bernoulli(d) => d.mean(),
@@ -371,6 +414,13 @@ type Val = Result<f64, String>;
 struct Obs {
     at: Vec<f64>,
     density: Vec<Val>,
+    /// probe points of the log-density / cdf: `at` and the far tails (where a density underflows but a
+    /// log-space evaluation does not)
+    at_ln: Vec<f64>,
+    /// `ln_pdf` at `at_ln` (empty for the discrete laws)
+    ln_density: Vec<Val>,
+    /// `cdf` at `at_ln` (empty unless the law has one)
+    cdf: Vec<Val>,
     mean: Val,
     var: Val,
 }
@@ -406,9 +456,33 @@ fn probes(kind: Kind, p: &[f64]) -> Vec<f64> {
     vec![-3.0, -1.0, -0.25, 0.0, 0.1, 0.5, 0.9, 1.0, 1.5, 2.5, 7.0, 30.0, a, b, 0.5 * (a + b), a + 2.0 * b]
 }
 
+/// `Normal::cdf` is evaluated only where the object's own `mean()`, `var()` and `pdf(x)` say that its
+/// standardised argument (x − μ)/σ is a number. On the unchanged tree `erf(NaN)` recurses without end
+/// (`if x >= 0. {..} else { -erf(-x) }`): `Normal::new(mu, 0.).cdf(mu)` overflows the stack and aborts
+/// the process — not a panic, so `guard` cannot contain it (reported as a finding outside C18: object
+/// and twin behave alike). A degenerate object is skipped on both sides; if only one side is
+/// degenerate the two `Val`s differ and the comparison fails as it should.
+fn cdf_evaluable(o: &Obj, x: f64) -> bool {
+    let z = guard(|| (x - o.mean()) / o.var().sqrt());
+    let d = guard(|| o.density(x));
+    matches!(z, Ok(z) if !z.is_nan()) && matches!(d, Ok(d) if d.is_finite())
+}
+
 fn observe(kind: Kind, p: &[f64], o: &Obj) -> Obs {
     let at = probes(kind, p);
-    Obs { density: at.iter().map(|&x| guard(|| o.density(x))).collect(), at, mean: guard(|| o.mean()), var: guard(|| o.var()) }
+    let mut at_ln = at.clone();
+    at_ln.extend([-1e6, -1e3, -40.0, -1e-5, -1e-300, 1e-300, 1e-5, 40.0, 1e3, 1e6]);
+    let has_ln = !kind.discrete();
+    let has_cdf = kind == K::Normal;
+    Obs {
+        density: at.iter().map(|&x| guard(|| o.density(x))).collect(),
+        ln_density: if has_ln { at_ln.iter().map(|&x| guard(|| o.ln_density(x).unwrap())).collect() } else { vec![] },
+        cdf: if has_cdf { at_ln.iter().map(|&x| if cdf_evaluable(o, x) { guard(|| o.cdf(x).unwrap()) } else { Err("cdf not evaluated here (degenerate object: the standardised argument is not a number)".into()) }).collect() } else { vec![] },
+        at,
+        at_ln,
+        mean: guard(|| o.mean()),
+        var: guard(|| o.var()),
+    }
 }
 
 type Stream = Result<Vec<f64>, String>;
@@ -418,6 +492,25 @@ fn draws(rep: &mut Report, o: &Obj, seed: u64, n: usize) -> Stream {
     compute::verif_hooks::set_budget(BUDGET);
     alea::set_seed(seed);
     let r = guard(|| (0..n).map(|_| o.sample()).collect::<Vec<f64>>());
+    compute::verif_hooks::set_budget(u64::MAX);
+    rep.absorb_hooks();
+    r
+}
+
+/// `sample_n(n)` / `sample_matrix(r, c)` of an object from a seed; the matrix shape leads the stream.
+fn bulk_draws(rep: &mut Report, o: &Obj, seed: u64, shape: Result<usize, (usize, usize)>) -> Stream {
+    rep.absorb_hooks();
+    compute::verif_hooks::set_budget(BUDGET);
+    alea::set_seed(seed);
+    let r = guard(|| match shape {
+        Ok(n) => o.dist().sample_n(n).v,
+        Err((r, c)) => {
+            let m = o.dist().sample_matrix(r, c);
+            let mut v = vec![m.nrows as f64, m.ncols as f64];
+            v.extend(m.data.v);
+            v
+        }
+    });
     compute::verif_hooks::set_budget(u64::MAX);
     rep.absorb_hooks();
     r
@@ -453,6 +546,24 @@ fn compare(rep: &mut Report, cx: &Ctx, regime: &str, model: &[f64], obj: &Obj, t
         let i = bad.unwrap();
         head(json!({"at": a.at[i], "mutated_object": jval(&a.density[i]), "fresh_twin": jval(&b.density[i])}))
     });
+    // every further method the distribution traits (and the inherent impls) offer: the log-density of the
+    // continuous laws — a trait method with a default body that any law may override — and Normal's cdf
+    if !a.ln_density.is_empty() {
+        rep.seen(&format!("cover:{}:ln_pdf", cx.kind.name()), 1);
+        let bad = (0..a.at_ln.len()).find(|&i| !val_eq(&a.ln_density[i], &b.ln_density[i]));
+        all &= rep.check("C18.twin.ln_density", regime, bad.is_none(), || {
+            let i = bad.unwrap();
+            head(json!({"method": "ln_pdf", "at": a.at_ln[i], "mutated_object": jval(&a.ln_density[i]), "fresh_twin": jval(&b.ln_density[i])}))
+        });
+    }
+    if !a.cdf.is_empty() {
+        rep.seen(&format!("cover:{}:cdf", cx.kind.name()), 1);
+        let bad = (0..a.at_ln.len()).find(|&i| !val_eq(&a.cdf[i], &b.cdf[i]));
+        all &= rep.check("C18.twin.cdf", regime, bad.is_none(), || {
+            let i = bad.unwrap();
+            head(json!({"method": "cdf", "at": a.at_ln[i], "mutated_object": jval(&a.cdf[i]), "fresh_twin": jval(&b.cdf[i])}))
+        });
+    }
     all &= rep.check("C18.twin.mean", regime, val_eq(&a.mean, &b.mean), || head(json!({"mutated_object": jval(&a.mean), "fresh_twin": jval(&b.mean)})));
     all &= rep.check("C18.twin.var", regime, val_eq(&a.var, &b.var), || head(json!({"mutated_object": jval(&a.var), "fresh_twin": jval(&b.var)})));
     let sa = draws(rep, obj, seed, cx.n_draws);
@@ -462,11 +573,24 @@ fn compare(rep: &mut Report, cx: &Ctx, regime: &str, model: &[f64], obj: &Obj, t
     }
     all &= rep.check("C18.twin.samples", regime, stream_eq(&sa, &sb), || head(json!({"seed": seed, "draws": cx.n_draws, "mutated_object_first": jstream(&sa), "fresh_twin_first": jstream(&sb),
         "mean_of_stream": [sa.as_ref().ok().map(|v| v.iter().sum::<f64>() / v.len() as f64), sb.as_ref().ok().map(|v| v.iter().sum::<f64>() / v.len() as f64)]})));
+    // the bulk forms of `Distribution1D` (default bodies that a law may override) on the MUTATED object
+    let nb = (cx.n_draws / 5).max(4);
+    let (r, c) = if seed & 2 == 0 { (2, nb / 2) } else { (nb / 2, 2) };
+    for (api, shape) in [("sample_n", Ok(nb)), ("sample_matrix", Err((r, c)))] {
+        let sa = bulk_draws(rep, obj, seed, shape);
+        let sb = bulk_draws(rep, twin, seed, shape);
+        all &= rep.check(&format!("C18.twin.{}", api), regime, stream_eq(&sa, &sb), || head(json!({"method": api, "seed": seed, "n": nb, "matrix_shape": [r, c], "mutated_object_first": jstream(&sa), "fresh_twin_first": jstream(&sb)})));
+    }
+    // the internal state as `Debug` prints it: evidence only (a cache that no method reads is not observable behaviour)
+    if all && obj.debug_repr() != twin.debug_repr() {
+        rep.note_add("twin.debug_repr_differs_while_all_methods_agree", 1.0);
+    }
     all
 }
 
 fn obs_eq(a: &Obs, b: &Obs) -> bool {
-    a.density.iter().zip(&b.density).all(|(x, y)| val_eq(x, y)) && val_eq(&a.mean, &b.mean) && val_eq(&a.var, &b.var)
+    let veq = |x: &[Val], y: &[Val]| x.len() == y.len() && x.iter().zip(y).all(|(x, y)| val_eq(x, y));
+    veq(&a.density, &b.density) && veq(&a.ln_density, &b.ln_density) && veq(&a.cdf, &b.cdf) && val_eq(&a.mean, &b.mean) && val_eq(&a.var, &b.var)
 }
 
 // ---------------------------------------------------------------------------------------------
@@ -1372,13 +1496,15 @@ fn bulk_family(cfg: &Cfg, rep: &mut Report) {
 }
 
 pub fn run(cfg: &Cfg, rep: &mut Report) {
-    rep.rule = "random histories: constructor + 1..20 mutations (65% single setter, 35% update; 30% of the steps carry an invalid value; valid targets on a random side of the current value; two-sided bounds: targets above / below / containing / overlapping the old interval), 13 distributions round-robin. Structured valid targets: 35% of the valid setter steps take the current value of the same parameter (same), the current value of the other parameter (cross) or an edge of the documented domain (tiny: 5e-324, MIN_POSITIVE, EPSILON/2, log-uniform 1e-300..1e-15 and 1e-15..moderate range; huge: log-uniform moderate range..1e15 and 1e15..1e300, f64::MAX; probabilities up to 1-2^-53; integer parameters up to 1e18, DiscreteUniform bounds up to +-1e15); 50% of the valid updates are structured vectors labelled by class: same / equal (both targets bit-equal: a new value or a current one) / swap / cross (a target equals the current value of the other parameter) / one-changes / extreme; 20% of the histories start from equal parameters or from an edge of the domain. After every accepted step the object is compared with a fresh twin (16 probe points, mean, var, 64 seeded draws; 16 draws while a parameter is outside the moderate range); then isolation cases (k = 0, 1, 50 other live objects; 8 concurrent threads). non-trivial = at least one accepted mutation changed a parameter; distinct by (distribution, sequence of calls and values). Default-start histories (20 per distribution quick, 200 thorough): Default::default() compared with new(default parameters), once more after a rejected setter/update, then mutated as above. Bulk family: per distribution, stream lengths 1, 2, 3, 100, 1000, 7e4, 1e5, 2^k-1 / 2^k / 2^k+1 for k in {4,8,10,12,14..17 (thorough ..20)} and 8 random lengths; random moderate parameters and seed per point; singles / sample_n twice / sample_matrix(r,c) twice with r*c = n, each followed by 4 single draws".into();
+    rep.rule = "random histories: constructor + 1..20 mutations (65% single setter, 35% update; 30% of the steps carry an invalid value; valid targets on a random side of the current value; two-sided bounds: targets above / below / containing / overlapping the old interval), 13 distributions round-robin. Structured valid targets: 35% of the valid setter steps take the current value of the same parameter (same), the current value of the other parameter (cross) or an edge of the documented domain (tiny: 5e-324, MIN_POSITIVE, EPSILON/2, log-uniform 1e-300..1e-15 and 1e-15..moderate range; huge: log-uniform moderate range..1e15 and 1e15..1e300, f64::MAX; probabilities up to 1-2^-53; integer parameters up to 1e18, DiscreteUniform bounds up to +-1e15); 50% of the valid updates are structured vectors labelled by class: same / equal (both targets bit-equal: a new value or a current one) / swap / cross (a target equals the current value of the other parameter) / one-changes / extreme; 20% of the histories start from equal parameters or from an edge of the domain. After every accepted step the object is compared with a fresh twin through every method of the distribution traits (pdf/pmf at 16 probe points; ln_pdf of the 9 continuous laws and Normal::cdf at those and 10 far-tail points; mean; var; 64 seeded sample() draws, 16 while a parameter is outside the moderate range; sample_n(12) and sample_matrix(2x6 / 6x2) from the same seed); then isolation cases (k = 0, 1, 50 other live objects; 8 concurrent threads). non-trivial = at least one accepted mutation changed a parameter; distinct by (distribution, sequence of calls and values). Default-start histories (20 per distribution quick, 200 thorough): Default::default() compared with new(default parameters), once more after a rejected setter/update, then mutated as above. Bulk family: per distribution, stream lengths 1, 2, 3, 100, 1000, 7e4, 1e5, 2^k-1 / 2^k / 2^k+1 for k in {4,8,10,12,14..17 (thorough ..20)} and 8 random lengths; random moderate parameters and seed per point; singles / sample_n twice / sample_matrix(r,c) twice with r*c = n, each followed by 4 single draws".into();
     rep.assume("NaN is not used as an invalid probe: constructors and setters agree in accepting it");
     rep.assume("integer-typed parameters (Binomial n, ChiSquared dof, DiscreteUniform bounds) are mutated with integer values only; update() receives them as integer-valued f64 (its f64→integer cast cannot express other invalid values than the typed setter)");
     rep.assume("ordinary targets keep shape parameters >= 0.4 (T: dof >= 0.7); structured targets visit the whole documented domain. No verdict depends on what a sampler returns there (C03): object and twin run the same code from the same seed under an iteration budget of 1e5 per stream, and a stream cut by the budget on BOTH sides is equal behaviour");
     rep.assume("validity table = the constructors' documented domains restricted to finite values (x > 0, sigma >= 0, 0 <= p <= 1, dof >= 1, lower <= upper); +-inf and NaN are not presented as valid parameters; integer parameters stay <= 1e18 (DiscreteUniform bounds within +-1e15) where update()'s f64 -> integer cast is exact and upper - lower + 1 cannot overflow");
     rep.assume("'the same stream of samples from the same RNG seed' is read per seed, not per call shape: sample_n(n) and sample_matrix(r, c) must return the n = r*c values that n successive sample() calls return from that seed, and draws after the bulk call continue that stream; 'reproducible' (two identical seeded bulk calls agree) is asserted separately under its own id");
     rep.assume("default parameters (harness table): Bernoulli 0.5, Beta(1,1), Binomial(1,0.5), ChiSquared 1, DiscreteUniform(0,1), Exponential 1, Gamma(1,1), Gumbel(0,1), Normal(0,1), Pareto(1,1), Poisson 1, T 1, Uniform(0,1)");
+    rep.assume("'observationally identical' covers every public method of the distribution traits (Distribution::sample, Distribution1D::sample_n / sample_matrix, Continuous::pdf / ln_pdf, Discrete::pmf, Mean::mean, Variance::var) and the inherent Normal::cdf; the discrete laws have no log-mass method. The Debug representation is compared as evidence only (notes.twin.debug_repr_differs_while_all_methods_agree)");
+    rep.assume("Normal::cdf is compared only where the object's own mean(), var() and pdf(x) show a non-degenerate standardised argument: with sigma = 0 and x = mu the unchanged library calls erf(NaN), which recurses until the stack overflows (process abort, not a panic) on object and twin alike");
     rep.assume("Binomial pmf is probed inside 0..=n only (outside it panics on any object, C02)");
     rep.assume("a rejected bulk update may have applied its valid prefix (recorded in notes.rejected_update.valid_prefix_applied); demanded is that the object then equals the twin of exactly those parameters — the property forbids out-of-domain parameters, not non-atomic rejection");
     let n_hist = cfg.pick(13 * 500, 13 * 5000, 13);
@@ -1402,6 +1528,12 @@ pub fn run(cfg: &Cfg, rep: &mut Report) {
         isolation_threads(cfg, rep, rng);
     });
     rep.require("threads=8", 8);
+    for k in KINDS {
+        if !k.discrete() {
+            rep.require(&format!("cover:{}:ln_pdf", k.name()), 1);
+        }
+    }
+    rep.require("cover:normal:cdf", 1);
     for k in KINDS {
         rep.require(&format!("{}:default", k.name()), 1);
         // every distribution has a parameter with an invalid finite value: a rejected call on the default object
